@@ -257,6 +257,16 @@ class Body:
         if self._guard_cache is not None:
             return self._guard_cache
         g = {}
+        # switches on the result of Iterator::next() (loop membership / exhaustion) carry no information
+        trivial = set()
+        for i in self.labels:
+            try:
+                d = self.val_operand(self.blocks[i]["term"]["d"])
+            except Exception:
+                continue
+            if d[0] == "discr" and d[1][0] == "opt":
+                trivial.add(i)
+        self.trivial_switches = trivial
         for b in self.rpo:
             if b == 0:
                 g[b] = frozenset([frozenset()])
@@ -265,6 +275,8 @@ class Body:
             for (p, l) in self.pred[b]:
                 if p not in g or (p, b) in self.back:
                     continue
+                if l is not None and l[0] in trivial:
+                    l = None
                 for conj in g[p]:
                     if l is None:
                         acc.add(conj)
@@ -622,6 +634,9 @@ def fn_name(fn):
 def model_call(crate, fn, args, site, term=None):
     path = fn["path"]
     res = fn.get("resolved") or path
+    if path in ("std::clone::Clone::clone", "std::borrow::ToOwned::to_owned", "std::ops::Deref::deref", "std::ops::DerefMut::deref_mut") and args \
+            and not (args[0][0] == "const" and args[0][1] == "str"):
+        return args[0]  # also for local (derived) impls: a clone denotes the same tree
     # local functions: inline their return value when not recursive
     if fn.get("resolved_local") or fn.get("local"):
         target = crate.bodies.get(res) or crate.bodies.get(path)
